@@ -136,6 +136,18 @@ CHECKS['C05'] = dict(
          "own: it follows from these rules together with C01/C02/C04; six-decimal angle text is taken as specified.",
     tech="static analysis: exactly-once path counting (K-COUNT) on the CFG, string-template folding of extracted expressions (K-SX), guard dominance, def-use of the CLI listing variable")
 
+CHECKS['C17'] = dict(
+    text="Accounting decided from the source for every program and configuration: both tracked-outcome recorders are evaluated abstractly from "
+         "their syntax trees over entry kinds × element classes × register lengths 0–3 (uniform range-for loops, checked) — each tracked "
+         "qubit/qubit[] entry of a closing scope is counted exactly once under the right key with the right outcome string, nothing else "
+         "is counted, the scope is popped, and the recorders agree; every opened scope is closed on all normal paths; the CLI sums every "
+         "shot's counts inside the shot loop; shots and echo policy tables are evaluated exhaustively from the extracted statements; the "
+         "printed probability divides by the variable's own total.",
+    note=TB + "K-ABS interprets the sx trees of endScope, recordTrackedValue and the CLI policy statements (no repo code is compiled or run). "
+         "The echo columns `none`/unrecognised strings are not armed (property statement and docs/tooling/cli.md differ). Per-shot outcome "
+         "strings depend on the draws and are not decided.",
+    tech="static analysis: finite abstract evaluation of extracted syntax trees over a quotient domain (K-ABS), scope pairing by post-dominance, def-use of the probability denominator")
+
 NOT_YET = "check not yet built in this round (framework under construction; see DESIGN.md §4 for the planned static rules)"
 
 
